@@ -64,10 +64,18 @@ pub(crate) fn format(src: &str, path: &Path) -> String {
     let src_after_spans = apply_span_edits(src, &mut visitor.span_edits);
 
     // Phase 5: Apply indentation edits
-    let src_after_indent = apply_indentation_edits(&src_after_spans, &visitor.line_edits);
+    let src_after_indent = apply_indentation_edits(
+        &src_after_spans,
+        &visitor.line_edits,
+        &lines_starting_in_string(&src_after_spans, &vfs_path),
+    );
 
     // Phase 6: Normalize blank lines
-    let src_after_blanks = normalize_blank_lines(&src_after_indent, &visitor.toplevel_start_lines);
+    let src_after_blanks = normalize_blank_lines(
+        &src_after_indent,
+        &visitor.toplevel_start_lines,
+        &lines_starting_in_string(&src_after_indent, &vfs_path),
+    );
 
     // Phase 7: Fix type annotation spacing
     let src_after_types = fix_type_annotation_spacing(&src_after_blanks, &vfs_path);
@@ -683,8 +691,30 @@ fn collect_comment_edits(
     }
 }
 
+/// The lines (0-based) that begin inside a multi-line string literal.
+/// Their leading whitespace, and whether they are blank, is part of
+/// the string's value, so the line-based phases must leave them alone.
+fn lines_starting_in_string(
+    src: &str,
+    vfs_path: &crate::parser::vfs::VfsPathBuf,
+) -> FxHashSet<usize> {
+    let (mut token_stream, _) = lex_between(vfs_path, src, 0, src.len());
+
+    let mut lines = FxHashSet::default();
+    while let Some(token) = token_stream.pop() {
+        for line in (token.position.line_number + 1)..=token.position.end_line_number {
+            lines.insert(line);
+        }
+    }
+    lines
+}
+
 /// Apply indentation edits to the source while preserving blank lines.
-fn apply_indentation_edits(src: &str, line_edits: &[LineEdit]) -> String {
+fn apply_indentation_edits(
+    src: &str,
+    line_edits: &[LineEdit],
+    string_lines: &FxHashSet<usize>,
+) -> String {
     let lines: Vec<&str> = src.lines().collect();
     let mut result = String::with_capacity(src.len());
 
@@ -695,7 +725,10 @@ fn apply_indentation_edits(src: &str, line_edits: &[LineEdit]) -> String {
     }
 
     for (line_num, line) in lines.iter().enumerate() {
-        if let Some(edit) = edits_map.get(&line_num) {
+        if let Some(edit) = edits_map
+            .get(&line_num)
+            .filter(|_| !string_lines.contains(&line_num))
+        {
             // Strip existing indentation and add correct amount
             let trimmed = line.trim_start();
 
@@ -751,7 +784,11 @@ fn apply_span_edits(src: &str, span_edits: &mut [SpanEdit]) -> String {
 ///
 /// - Before non-import toplevel definitions: exactly one blank line
 /// - Inside blocks: at most one blank line between lines
-fn normalize_blank_lines(src: &str, toplevel_start_lines: &[usize]) -> String {
+fn normalize_blank_lines(
+    src: &str,
+    toplevel_start_lines: &[usize],
+    string_lines: &FxHashSet<usize>,
+) -> String {
     let lines: Vec<&str> = src.lines().collect();
     if lines.is_empty() {
         return src.to_owned();
@@ -764,10 +801,10 @@ fn normalize_blank_lines(src: &str, toplevel_start_lines: &[usize]) -> String {
     while i < lines.len() {
         let line = lines[i];
 
-        // If this line is blank
-        if line.trim().is_empty() {
+        // If this line is blank (and not part of a string literal)
+        if line.trim().is_empty() && !string_lines.contains(&i) {
             // Count consecutive blank lines
-            while i < lines.len() && lines[i].trim().is_empty() {
+            while i < lines.len() && lines[i].trim().is_empty() && !string_lines.contains(&i) {
                 i += 1;
             }
 
